@@ -212,6 +212,15 @@ def find_counterexamples(ob, res, failed, seed, n=300):
 def replay(path):
     d = json.load(open(path))
     importlib.import_module(d['module'])
+    if 'bounded' in d:
+        ob = BOUNDED[d['bounded']]
+        r = ob.fn(random.Random(0), 'quick')
+        sig = (d.get('failure') or {}).get('signature')
+        hit = [f for f in r.get('failures', []) if f.get('clause') == d.get('clause') and (sig is None or f.get('signature') == sig)]
+        print(f"replay bounded stand-in {d['bounded']} clause {d.get('clause')} on the real code")
+        if hit:
+            print(f"  REPRODUCED: {json.dumps(hit[0], default=str)[:800]}"); return 1
+        print("  not reproduced"); return 0
     ob = OBLIGATIONS[d['obligation']]
     if not d.get('sample'):
         print(f"replay: obligation {d['obligation']} clause {d['clause']}: no failing input recorded "
